@@ -305,6 +305,14 @@ func init() {
 		m.natives[p] = m.newNative("jsondec", &jsonDec{reader: a[0]})
 		return p
 	}
+	natives["(*encoding/json.Decoder).More"] = func(m *Machine, c *frame, fn *ssa.Function, a []Value) Value {
+		d := m.natives[a[0].(*Value)].Data.(*jsonDec)
+		d.m, d.c = m, c
+		if d.dec == nil {
+			d.dec = json.NewDecoder(d)
+		}
+		return sym.Bool(d.dec.More())
+	}
 	natives["(*encoding/json.Decoder).Decode"] = func(m *Machine, c *frame, fn *ssa.Function, a []Value) Value {
 		d := m.natives[a[0].(*Value)].Data.(*jsonDec)
 		d.m, d.c = m, c
